@@ -60,6 +60,8 @@ func TestVerifC20ServerWire(t *testing.T) {
 			hreq.Header.Set("Content-Type", ct)
 			hreq.Header.Set("Connect-Protocol-Version", "1")
 			hreq.Header.Set("X-Test-Case-Name", test)
+			// the runner's number for this encoding: the server's own check must take the name for the same thing
+			hreq.Header.Set("X-Expect-Compression", fmt.Sprint(int32(vfC20Enum[name])))
 			if stream {
 				hreq.Header.Set("Connect-Content-Encoding", name)
 				hreq.Header.Set("Connect-Accept-Encoding", name)
@@ -111,6 +113,14 @@ func TestVerifC20ServerWire(t *testing.T) {
 					viol = verifkit.Violf("server-wire-algorithm", "the response announced as %q does not decode (independent %s decoder) to the expected message: err=%v (%+v)", gotEnc, name, err, r)
 				}
 			}
+			if viol == nil {
+				time.Sleep(20 * time.Millisecond) // (the harness's reader of the server's stderr)
+				for _, l := range srv.feedbackFor(test) {
+					if strings.Contains(l, "compression") {
+						viol = verifkit.Violf("server-wire-feedback", "the request announced %q, used that algorithm and the runner expected %v, yet the server reports: %q (%+v)", name, vfC20Enum[name], l, r)
+					}
+				}
+			}
 			en.Rec.Observe(r, []string{name, fmt.Sprintf("stream:%v", stream)}, true)
 			if viol != nil && en.Fail(r, viol) {
 				en.Done(true)
@@ -119,6 +129,12 @@ func TestVerifC20ServerWire(t *testing.T) {
 		}
 	}
 	en.Done(true)
+}
+
+// vfC20Enum: the protocol's number of each encoding name (proto/connectrpc/conformance/v1/config.proto).
+var vfC20Enum = map[string]conformancev1.Compression{
+	"identity": conformancev1.Compression_COMPRESSION_IDENTITY, "gzip": conformancev1.Compression_COMPRESSION_GZIP, "br": conformancev1.Compression_COMPRESSION_BR,
+	"zstd": conformancev1.Compression_COMPRESSION_ZSTD, "deflate": conformancev1.Compression_COMPRESSION_DEFLATE, "snappy": conformancev1.Compression_COMPRESSION_SNAPPY,
 }
 
 func vfC20Trunc(b []byte) []byte {
